@@ -156,6 +156,13 @@ func stage2Paths(rs *Resid, body *ast.BlockStmt, maxIter int) ([]gsPath, string)
 				// buf := …, i := 0, i++
 			case *ast.ReturnStmt:
 				// return buf.String()
+			case *ast.BranchStmt:
+				if x.Tok == token.CONTINUE {
+					// the rest of this iteration is skipped on these paths
+					return acc
+				}
+				undecided = "branch statement " + x.Tok.String() + " in the printing function"
+				return acc
 			default:
 				undecided = fmt.Sprintf("statement %T in the printing function", st)
 				return acc
@@ -342,7 +349,11 @@ func gostringFieldIssues(rs *Resid, fn *ast.FuncDecl) []sideIssue {
 		if !any && d.Fn != "derive.Fields" {
 			continue
 		}
+		blank := blankFirstField(rs.Run)
 		for i := 0; i < rs.Run.Arities[d.Choice]; i++ {
+			if i == 0 && (blank[org] || blank[tieRe.ReplaceAllString(org, "[*]")]) {
+				continue
+			}
 			id, ok := fields[strconv.Itoa(i)]
 			if !ok || !strings.Contains(text, id) {
 				out = append(out, sideIssue{fn, fmt.Sprintf("field #%d of the struct %s is never printed: the rebuilt value has the zero value there", i, shortSym(org)), "field-missing", ""})
